@@ -243,8 +243,8 @@ def watcher_units(unit):
             fr = new_object(F.ForwardFrame, _bits=bits, _data=ctx.fresh_int("pdata", 0, (1 << bits) - 1), _error=False)
             pending = new_object(C.Command, _data=fr, sendtwice=(kind == 1), response=(C.NumericResponse if kind == 2 else None))
         dt = ctx.fresh_int("devicetype", 0, 255)
-        lc.env.locals["current_command"] = pending
-        lc.env.locals["devicetype"] = dt
+        lc.set("pending", pending)
+        lc.set("devicetype", dt)
         drv.fields["_bus_watch_data"] = ctx.track([])
         drv.fields["_bus_watch_data_available"].flag = False
         st.update(pending=pending, dt=dt, input=None, nlog=len(st["world"].log))
@@ -269,8 +269,8 @@ def watcher_units(unit):
             return True
         ctx, interp, world = lc.ctx, lc.interp, st["world"]
         pending, dt, rep = st["pending"], st["dt"], st["input"]
-        new_pending = lc.env.locals["current_command"]
-        new_dt = lc.env.locals["devicetype"]
+        new_pending = lc.get("pending")
+        new_dt = lc.get("devicetype")
         got = reports_since(world)
         inp = ("timeout",) if rep is None else classify(rep)
         conds = Labelled()
@@ -376,7 +376,9 @@ def watcher_units(unit):
         out = world.run(HID.tridonic._bus_watch, drv)
         ctx.fail("watcher-never-returns", detail="outcome %r" % (out[:2],)) if out[0] != "blocked" else None
     unit("hid/tridonic-watcher-step", r_watch,
-         loops={(WATCH, 0): LoopSpec("watch", inv, havoc)})
+         loops={(WATCH, 0): LoopSpec("watch", inv, havoc, roles={
+             "pending": ("current_command", lambda v: v is None),
+             "devicetype": ("devicetype", lambda v: isinstance(v, int) and not isinstance(v, bool) and v == 0)})})
 
 
 # checks whose proof units establish the callee contracts applied here (re-verified by this check, see main.dependency_units)
